@@ -152,6 +152,56 @@ Proof.
   - apply (sc_get_full_out add zero C K); auto.
 Qed.
 
+(* StripedScores::iter as a double-ended, exact-size, fused iterator over a full scan: any
+   interleaving of next() (false) and next_back() (true) yields, from the front, the defined
+   scores of positions 0, 1, .. and, from the back, those of positions L-M, L-M-1, ..; each
+   position at most once; None once the two ends have met.  In particular n calls of next()
+   give unstripe() and n calls of next_back() give its reverse; len() = L - M + 1. *)
+Theorem C01_scores_iter_double_ended :
+  forall (T : Type) (add : T -> T -> T) (zero : T) (C K : nat)
+         (pssm : list (list T)) (s : list nat) (q : sseq) (ops : list bool),
+    0 < C -> 0 < K -> Forall (fun x => x < K) s -> pssm_wf K pssm ->
+    Striped C (K - 1) s q ->
+    1 <= length pssm -> length pssm - 1 <= sq_wrap q -> length pssm <= length s ->
+    let n := length s + 1 - length pssm in
+    exists sc,
+      generic_score add zero C pssm q = Ok sc /\
+      sc_iter_end C sc = n /\
+      sc_iter_ops C sc ops = Ok (iter_spec (score_def add zero (K - 1) pssm s) ops 0 n) /\
+      iter_spec (score_def add zero (K - 1) pssm s) (repeat false n) 0 n =
+        map (fun i => Some (score_def add zero (K - 1) pssm s i)) (seq 0 n) /\
+      iter_spec (score_def add zero (K - 1) pssm s) (repeat true n) 0 n =
+        map (fun i => Some (score_def add zero (K - 1) pssm s (n - 1 - i))) (seq 0 n).
+Proof.
+  intros T add zero C K pssm s q ops HC HK Hs Hp Hst HM Hw HL n.
+  exists (mkScores (full_mat add zero C K pssm s) n).
+  split; [exact (generic_score_striped add zero C K pssm s q HC HK Hs Hp Hst HM Hw HL)|].
+  destruct (seq_R_bound C (length s) HC) as [HB _].
+  assert (E : sc_iter_end C (mkScores (full_mat add zero C K pssm s) n) = n).
+  { unfold sc_iter_end. cbn [sc_max sc_mat]. rewrite full_mat_length. unfold n. apply Nat.min_l. lia. }
+  split; [exact E|]. split.
+  - unfold sc_iter_ops. rewrite E. apply (iter_run_full add zero C K); auto. unfold n. lia.
+  - split; [apply iter_spec_front|apply iter_spec_back]; lia.
+Qed.
+
+(* offset(MatrixCoordinates { row, col }) is the index that Index<usize> maps back to that cell:
+   scores[offset(r, c)] is the defined score of position c*R + r *)
+Theorem C01_scores_offset :
+  forall (T : Type) (add : T -> T -> T) (zero : T) (C K : nat)
+         (pssm : list (list T)) (s : list nat) (q : sseq) (r c : nat),
+    0 < C -> 0 < K -> Forall (fun x => x < K) s -> pssm_wf K pssm ->
+    Striped C (K - 1) s q ->
+    1 <= length pssm -> length pssm - 1 <= sq_wrap q -> length pssm <= length s ->
+    r < seq_R C (length s) -> c < C ->
+    rbind (generic_score add zero C pssm q) (fun sc => sc_get sc (sc_offset sc r c)) =
+    Ok (score_def add zero (K - 1) pssm s (c * seq_R C (length s) + r)).
+Proof.
+  intros T add zero C K pssm s q r c HC HK Hs Hp Hst HM Hw HL Hr Hc.
+  rewrite (generic_score_striped add zero C K pssm s q HC HK Hs Hp Hst HM Hw HL). cbn [rbind].
+  unfold sc_offset. cbn [sc_mat]. rewrite map_length, seq_length.
+  apply (sc_get_full add zero C K pssm s); auto. nia.
+Qed.
+
 (* ====================================================================== *)
 (* SIMD kernels and the dispatcher.
 
@@ -325,6 +375,52 @@ Proof.
   apply (C01_score_dispatch_eq f32 F32.add F32.zero not_nzero K pssm pads s q ar a b old
            f32_zero_not_nzero f32_add_not_nzero f32_add_zero); auto.
 Qed.
+
+(* the same dispatcher as compiled on arm / aarch64 hosts: `Dispatch` has the arms Generic and
+   Neon there and the dispatching pipeline runs on 16 columns (Lanes = <Neon as Backend>::Lanes);
+   [dispatch_score_f32_arm] is read from the cfg(any(arm, aarch64)) and unconditional arms of the
+   same `match` (translator + proof only: nothing of this can be executed on this host) *)
+Theorem C01_score_dispatch_arm_eq :
+  forall (T : Type) (add : T -> T -> T) (zero : T) (P : T -> Prop) (K : nat)
+         (pssm : list (list T)) (s : list nat) (q : sseq)
+         (ar : neon_arm) (a b : nat) (old : sscores T),
+    P zero -> (forall x y, P x -> P (add x y)) -> (forall x, P x -> add x zero = x) ->
+    0 < K -> Forall (fun x => x < K) s -> pssm_wf K pssm ->
+    Striped 16 (K - 1) s q -> sc_wf 16 old ->
+    1 <= length pssm -> length pssm - 1 <= sq_wrap q ->
+    res_equiv (dispatch_rows_into_arm add zero dispatch_score_f32_arm neon_consts pssm ar q a b old)
+              (generic_rows_into add zero 16 pssm q a b old).
+Proof.
+  intros T add zero P K pssm s q ar a b old P0 Pa Pz HK Hs Hp Hst Hw HM Hwrap.
+  apply (dispatch_arm_equiv add zero K P); auto; try (vm_compute; reflexivity).
+  eapply striped_mat_wf; eauto.
+Qed.
+
+Theorem C01_score_dispatch_arm_eq_f32 :
+  forall (K : nat) (pssm : list (list f32)) (s : list nat) (q : sseq)
+         (ar : neon_arm) (a b : nat) (old : sscores f32),
+    0 < K -> Forall (fun x => x < K) s -> pssm_wf K pssm ->
+    Striped 16 (K - 1) s q -> sc_wf 16 old ->
+    1 <= length pssm -> length pssm - 1 <= sq_wrap q ->
+    res_equiv (dispatch_rows_into_arm F32.add F32.zero dispatch_score_f32_arm neon_consts pssm ar q a b old)
+              (generic_rows_into F32.add F32.zero 16 pssm q a b old).
+Proof.
+  intros K pssm s q ar a b old HK Hs Hp Hst Hw HM Hwrap.
+  apply (C01_score_dispatch_arm_eq f32 F32.add F32.zero not_nzero K pssm s q ar a b old
+           f32_zero_not_nzero f32_add_not_nzero f32_add_zero); auto.
+Qed.
+
+(* the safe wrappers of the five SIMD score kernels establish, in this order, exactly the steps
+   that [simd_guard] models: wrap guard, `L < M || rows.is_empty()` early return, row-range
+   assertion, resize, kernel call -- read from avx2.rs (f32 permute, f32 gather, u8 shuffle),
+   sse2.rs and neon.rs on every run; and Avx2::score_f32_rows_into picks the permute kernel
+   for K <= 8 as [avx2_rows_into] does.  Removing, duplicating or reordering a guard, or adding
+   another early exit, changes a generated list. *)
+Theorem C01_wrapper_guards_as_modelled :
+  avx2_permute_wrapper = simd_guard_steps /\ avx2_gather_wrapper = simd_guard_steps /\
+  avx2_u8_wrapper = simd_guard_steps /\ sse2_wrapper = simd_guard_steps /\
+  neon_wrapper = simd_guard_steps /\ avx2_permute_max_k = 8.
+Proof. repeat split; reflexivity. Qed.
 
 (* ====================================================================== *)
 (* What the equalities give on a configured striped sequence (binary32). *)
